@@ -36,6 +36,7 @@ class P:
             a, ca = render(ss, rnd.getrandbits(48), d, rnd.random() < 0.5)
             b, cb = render(ss, rnd.getrandbits(48), d, True)
             cases.append("%s\t%s\t%s\t%s" % (hx(a), ",".join("c" + hx(x) for x in ca), hx(b), ",".join("c" + hx(x) for x in cb)))
+        import re
         fixed = []
         for a, b in [("a && b\n", "a && \\\n\nb\n"), ("a | b\n", "a | \\\n \n b\n"),
                      # (F45 at the other places where the lexer skips the line break itself)
@@ -49,9 +50,17 @@ class P:
                      ("echo 5$((1))>x\n", "echo 5$((1)) >x\n"), ("echo a2>x\n", "echo a2 >x\n"), ("echo 2a>x\n", "echo 2a >x\n"), ("echo '2'>x\n", "echo '2' >x\n"),
                      ("echo \\2>x\n", "echo \\2 >x\n"), ("echo 2''<x\n", "echo 2'' <x\n"), ("echo ${a}2>x\n", "echo ${a}2 >x\n"), ("echo 22\"a\">&2\n", "echo 22\"a\" >&2\n"),
                      ("echo 2>x\n", "echo 2> x\n"), ("echo 2 >x\n", "echo 2  > x\n"), ("echo 12<<E\nb\nE\n", "echo 12<< E\nb\nE\n")]:
-            import re
             cb = re.findall(r"#([^\n]*)", b)
             fixed.append("%s\t\t%s\t%s" % (hx(a), hx(b), ",".join("c" + hx(x) for x in cb)))
+
+        # comments inside substitutions, in every place a substitution can stand (arithmetic expansions included)
+        for ctx in ("echo $(@)", "echo `@`", "echo $(( $(@) + 1 ))", "echo \"$(@)\"", "echo ${x:-$(@)}", "x=$(@) y", "echo $(( `@` ))", "cat <<E\n$(@)\nE",
+                    "echo $(( $(( $(@) )) ))", "echo \"$(( $(@) ))\"", "echo $(echo $(( $(@) )))", "cat <<E\n$(( $(@) ))\nE", "echo ${x:-$(( $(@) ))}", "x=$(( $(@) * `@` ))",
+                    "echo $(( $(@) )) $(@)"):
+            for la, lb in (("a\n", "a #c1\n"), ("a\n", "a # c 1\n# c2\n"), ("a; b\n", "a #1\nb #2\n"), ("a\n", "#0\na\n")):
+                b = ctx.replace("@", lb) + "\n"
+                # (comments written inside a here-document body's substitution are comments of that substitution as well)
+                fixed.append("%s\t\t%s\t%s" % (hx(ctx.replace("@", la) + "\n"), hx(b), ",".join("c" + hx(x) for x in re.findall(r"#([^\n]*)", b))))
 
         # derivations: the same structure with independent choices of newline tokens at every linebreak position and of ';' versus
         # newline separators, rendered under independent blank/comment/continuation layouts
